@@ -48,6 +48,18 @@ class BoolWrap(ast.NodeTransformer):
         return n
 
 
+class GuardPow(ast.NodeTransformer):
+    """a ** b -> _vf_pow(a, b), a << b -> _vf_lsh(a, b): same operands in the same order, same
+    result, but a value with millions of bits is refused (TooCostly) instead of computed."""
+    def visit_BinOp(self, n):
+        self.generic_visit(n)
+        if isinstance(n.op, ast.Pow):
+            return ast.Call(ast.Name("_vf_pow", ast.Load()), [n.left, n.right], [])
+        if isinstance(n.op, ast.LShift):
+            return ast.Call(ast.Name("_vf_lsh", ast.Load()), [n.left, n.right], [])
+        return n
+
+
 class ChainSplit(ast.NodeTransformer):
     """a < b < c  ->  (a < b) and (b < c)  [same Python meaning for side-effect free operands]"""
     def visit_Compare(self, n):
@@ -66,11 +78,12 @@ _pycache = {}
 
 def pyval(s, env):
     if s not in _pycache:
-        t = BoolWrap().visit(ast.parse(s, mode="eval"))
+        t = GuardPow().visit(BoolWrap().visit(ast.parse(s, mode="eval")))
         ast.fix_missing_locations(t)
         _pycache[s] = compile(t, "<s>", "eval")
     try:
-        return ("v", eval(_pycache[s], {"bool": bool, "__builtins__": {}}, dict(env)))
+        return ("v", eval(_pycache[s], {"bool": bool, "_vf_pow": refsem._pow,
+                                        "_vf_lsh": refsem._lshift, "__builtins__": {}}, dict(env)))
     except RecursionError:
         raise
     except Exception as e:  # noqa: BLE001
@@ -245,6 +258,9 @@ def _opsig(s):
 @check("C07.garbage")
 def c_garbage(ctx, case):
     (s,) = case
+    if _pymbolic_only_syntax(s):
+        ctx.count("garbage_outside_shared_syntax_skipped")
+        return
     ctx.case(None)
     ctx.count("garbage_strings")
     try:
@@ -392,8 +408,11 @@ def _nops(s):
 
 def _pymbolic_only_syntax(g):
     """strings that are not Python but are deliberate pymbolic syntax (slices outside subscripts,
-    wildcards '*', trailing-comma forms, 'd' exponents)"""
+    wildcards '*', trailing-comma forms, 'd' exponents, 'not' as the operand of an arithmetic
+    operator) -- outside the shared syntax, where the property only asks that all input is consumed"""
     import re
     if re.search(r"(^|[-+*/%(,\[<>=&|^~]|\bnot|\band|\bor|\bif|\belse)\s*\*(?!\*)", g):
         return True      # a '*' in operand position is pymbolic's wildcard
+    if re.search(r"(\*\*|<<|>>|//|[-+*/%&|^~])\s*not\b", g):
+        return True      # 'a - not b': Python wants parentheses there, pymbolic's grammar does not
     return any(t in g for t in (":", "@", "$")) or g.strip().endswith(",")
